@@ -726,9 +726,10 @@ func (c *Client) Start(msg *Message, handler Handler) error {
 	if closed {
 		return ErrClientClosed
 	}
+	var t *clientTransaction
 	if handler != nil {
 		// Starting transaction only if h is set. Useful for indications.
-		t := acquireClientTransaction()
+		t = acquireClientTransaction()
 		t.id = msg.TransactionID
 		t.start = c.clock.Now()
 		t.h = handler
@@ -748,7 +749,11 @@ func (c *Client) Start(msg *Message, handler Handler) error {
 	}
 	_, err := msg.WriteTo(c.c)
 	if err != nil && handler != nil {
-		c.delete(msg.TransactionID)
+		if !c.unregister(msg.TransactionID, t) {
+			// The transaction was completed while the write was failing
+			// (its handler has got the event): nothing to roll back.
+			return nil
+		}
 		// Stopping transaction instead of waiting until deadline.
 		if stopErr := c.a.Stop(msg.TransactionID); stopErr != nil {
 			return StopErr{
